@@ -367,7 +367,16 @@ func (c *gctx) stateProbe(depth int, consuming bool) *Expr {
 		}
 		return &Expr{Kind: Seq, Subs: []*Expr{{Kind: k, Subs: []*Expr{probe()}}, observer(c.terminal())}}
 	case 3: // optional probe
-		return &Expr{Kind: Seq, Subs: []*Expr{{Kind: Opt, Subs: []*Expr{probe()}}, observer(c.terminal())}}
+		body := probe()
+		switch c.r.Intn(3) {
+		case 0: // matches, and the value of the match is nil
+			body = &Expr{Kind: State}
+		case 1: // matches or not; when it does the action may return a nil value
+			if c.cfg.Actions {
+				body = &Expr{Kind: Action, Subs: []*Expr{body}}
+			}
+		}
+		return &Expr{Kind: Seq, Subs: []*Expr{{Kind: Opt, Subs: []*Expr{body}}, observer(c.terminal())}}
 	case 4: // repetition whose iterations change state and may fail late
 		body := &Expr{Kind: Seq, Subs: []*Expr{c.terminal(), {Kind: State}, pred()}}
 		if body.Subs[0].Kind == Lit && body.Subs[0].Text == "" {
@@ -502,7 +511,7 @@ func generateOnce(r Rand, cfg Config) *Grammar {
 		}
 		rule := &Rule{Name: ruleNames[i], Expr: e}
 		if cfg.Display && c.chance(1, 3) {
-			rule.Display = []string{"the rest", "item", "a thing"}[r.Intn(3)]
+			rule.Display = []string{"the rest", "item", "a thing", "ratio 100%d", "50%"}[r.Intn(5)]
 		}
 		g.Rules = append(g.Rules, rule)
 	}
@@ -680,7 +689,7 @@ func generateLR(c *gctx) *Grammar {
 	if c.cfg.Display {
 		for _, rl := range g.Rules {
 			if c.chance(1, 3) {
-				rl.Display = []string{"the rest", "item", "a thing"}[c.r.Intn(3)]
+				rl.Display = []string{"the rest", "item", "a thing", "ratio 100%d", "50%"}[c.r.Intn(5)]
 			}
 		}
 	}
